@@ -206,6 +206,10 @@ example : (runActs exB 4 (fun f => f.isAll exB 4) (init none) exActs).map (fun s
 -- in the middle of that schedule the file is *not* a prefix (a hole of zeros): two writers
 example : (runActs exB 4 (fun f => f.isAll exB 4) (init none) (exActs.take 6)).map (fun s => s.file.map File.bytes)
     = some (some [0, 0, 12, 13]) := by decide
+-- the atomic variant: one call renames a complete temporary file into place while the other writes in place
+example : (runActs exB 4 (fun f => f.isAll exB 4) (init none)
+    [.load false, .load true, .openW false, .write false 2, .replace true, .write false 2, .close false]).map
+      (fun s => s.file.map File.bytes) = some (some [10, 11, 12, 13]) := by decide
 end examples
 
 end PymocaVerif.CacheFile
